@@ -677,11 +677,22 @@ def _one_shot(ctx, rule):
     return c15.r1_one_shot_key(ctx, rule)
 
 
+def _omn_names(ctx, rule):
+    from . import c15
+    return c15.r9_session_file_names(ctx, rule)
+
+
+def _omen_save_restore(ctx, rule):
+    # the interrupted Markov level is saved to and restored from the same <session>.omn (seed C08-h)
+    from . import c15
+    return c15.r2_no_generated_unemitted(ctx, rule)
+
+
 def rules(tier):
     return [('C08.R1', r1_uuid_gate), ('C08.R2', r2_region_agreement), ('C08.R3', r3_canonical_descent),
             ('C08.R4', r4_saved_position), ('C08.R5', r5_sav_keys), ('C08.R6', c01.r5_successor),
             ('C08.R7', c01.r4_prob_pt_coupling), ('C08.R8', c01.r1_heap_order), ('C08.R9', r9_restore_depth), ('C08.R11', r11_restore_is_verbatim),
-            ('C08.R10', _exact_float), ('C08.R12', r12_uuid_is_fresh), ('C08.R13', r13_grammar_order), ('C08.R14', _one_shot)]
+            ('C08.R10', _exact_float), ('C08.R12', r12_uuid_is_fresh), ('C08.R13', r13_grammar_order), ('C08.R14', _one_shot), ('C08.R15', _omn_names), ('C08.R16', _omen_save_restore)]
 
 
 META = {
